@@ -15,6 +15,12 @@ these results and compares with the list call's result (ProofsOrder.fit_peak_is_
 model's fit_peak is that function).  Class `combo` tunes min_p_value between the p-values of the single fits so that the
 first combination fails and the trial ORDER decides which model pair is returned.
 
+Point-count guard per combination: class `mixed` uses model lists whose combinations need 5..7 parameters on windows of
+3..9 points (ProofsGuard: window_too_narrow only for a combination with more parameters than points; a too-narrow list
+result is the first combination's).  remove_peaks is called with the results as list and in the other Iterable forms
+(tuple, iter, generator, filter, map, dict values view, deque, chain, object with only __iter__): Coq compares every
+output with the one model of the result SEQUENCE (ProofsRemoveSeq).
+
 Three defects of the tree as found are switchable in the model (Model.variant): the correspondence tells
 which variant the CURRENT source is; the full theorems hold for the variant with the proposed patches and are
 refuted (with witnesses) for the tree as found.
@@ -1394,8 +1400,9 @@ def replay(ctx, obj):
         pv += remove_violations(case, rr)
     print('required: one result per estimate and no exception; too-narrow windows reported as window_too_narrow; '
           'statistics recomputable from popt and the window; success => every requirement; windows inside the data '
-          'range around their estimate; remove_peaks touches only successful windows; for lists of models the result is the '
-          'first success, in the documented order (background varied first), among the combinations fitted one by one')
+          'range around their estimate; remove_peaks touches only successful windows -- whatever Iterable form carries the '
+          'results; for lists of models the result is the first success, in the documented order (background varied first), '
+          'among the combinations fitted one by one; window_too_narrow only for a combination with more parameters than points')
     for k_, t in pv:
         print(f'VIOLATED [{k_}]: {t}')
     if not pv:
@@ -1408,8 +1415,10 @@ LEVEL_TEXT = ('Proof: for every behaviour of the optimiser/guess/CDF oracles (in
               'too-narrow windows give window_too_narrow without exception; reported red_chisq, p and AIC are chi2/(n-k), '
               '1-F_{n-k}(chi2), n ln(chi2/n)+2k over exactly the window points; success implies every requirement of _assess_fit; '
               'automatic windows lie in the data range, contain their estimate and keep the neighbour separation; for lists of models '
-              'the result is the first success in the documented product order among the single-combination fits; remove_peaks '
-              'subtracts exactly the fitted peaks inside successful windows and nothing else.  The model is tied to the source by '
+              'the result is the first success in the documented product order among the single-combination fits, and '
+              'window_too_narrow is reported only for a combination with more parameters than the window has points; remove_peaks '
+              'subtracts exactly the fitted peaks inside successful windows and nothing else, as a function of the sequence of '
+              'results only.  The model is tied to the source by '
               'running it inside Coq on ~120 data sets per run with the oracle answers recorded from the real implementation.')
 LEVEL_NOTE = ('Trusted: Coq kernel; the hand model coq/C17/Model.v (tie B: validated by the correspondence, not regenerated); modelled '
               'scipp slicing / Python slice rules; harness serialisation.  Theorems over exact rationals (axiom-free); binary64 rounding '
